@@ -218,15 +218,14 @@ Proof.
   unfold carries_proxy in Hprox.
   destruct (infoRefresh <? k) eqn:Er.
   { replace (k =? infoMigrate) with false by (unfold infoMigrate, infoRefresh in *; lia).
-    rewrite <- (app_nil_r (write_settings s)). rewrite app_nil_r.
-    eapply rt_last; [apply rt_settings; exact Hset | apply rt_ret]. }
+    eapply rt_bind; [apply rt_settings; exact Hset | apply rt_ret]. }
   replace (k <=? infoRefresh) with true in Hprox by lia.
   apply andb_true_iff in Hprox. destruct Hprox as [Hc Hp].
   eapply rt_bind; [apply rt_settings; exact Hset|].
   destruct (k =? infoMigrate).
   - eapply rt_bind; [apply rt_proxy; assumption|].
     eapply rt_last; [apply rt_keys; exact Hkeys | apply rt_ret].
-  - eapply rt_last; [apply rt_proxy; assumption | apply rt_ret].
+  - eapply rt_bind; [apply rt_proxy; assumption | apply rt_ret].
 Qed.
 
 (* ---- part 2: the stream reader agrees with the flat reader ------------------------------- *)
@@ -510,15 +509,18 @@ Proof.
   replace (v =? -1) with false by lia. replace (100 <? v) with false by lia. replace (v <? 0) with false by lia. reflexivity.
 Qed.
 
+Lemma ok_pair_inv {A B} (a a' : A) (b b' : B) : Ok (a, b) = Ok (a', b') -> a = a' /\ b = b'.
+Proof. intros H. injection H. auto. Qed.
+
 (* the client handler on the packet the server setter built *)
 Theorem client_handles_order srv cli o srv1 pkt :
   wf_settings srv = true -> wf_order o = true -> server_set srv o = Ok (srv1, pkt) ->
   client_time cli pkt = Ok (effect srv cli o, write_info infoSync (effect srv cli o)).
 Proof.
   unfold wf_settings. intros Hs Ho Hset. bools.
-  destruct o as [t j|k|[w|]|d j|k|w]; cbn [server_set wf_order] in *; bools.
+  destruct o as [t j|k|[w|]|d j|k|w]; cbv beta iota zeta delta [server_set wf_order] in Hset, Ho; bools.
   - (* SetDuration *)
-    injection Hset as <- <-.
+    apply ok_pair_inv in Hset; destruct Hset as [<- <-].
     set (jit := if j =? -1 then s_jitter srv else if j <? 0 then 0 else if 100 <? j then 100 else u8 j).
     set (sl := if 0 <? t then t else s_sleep srv).
     assert (Ej : jit = if j =? -1 then s_jitter srv else order_jitter j).
@@ -530,21 +532,22 @@ Proof.
     rewrite be16_small by exact Hj. rewrite client_time_duration by (try apply u64_range; exact Hj).
     rewrite i64_u64 by exact Hsl. cbn [effect]. cbv zeta. rewrite <- Ej. reflexivity.
   - (* SetKillDate *)
-    injection Hset as <- <-.
+    apply ok_pair_inv in Hset; destruct Hset as [<- <-].
     rewrite client_time_kill by (unfold kill_wire; destruct (is_zero_time k); [lia | apply u64_range]). reflexivity.
   - (* SetWorkHours w *)
     destruct (work_empty w) eqn:Ee.
-    + injection Hset as <- <-. change clear_work_packet with (enc_u8 timeWorkHours ++ write_work None).
-      rewrite (client_time_work cli _ _ rt_work_none). cbn [effect apply_order]. unfold norm_work at 3. rewrite Ee. reflexivity.
-    + destruct (work_verify w); cbn [negb] in Hset; [|discriminate]. injection Hset as <- <-.
+    + apply ok_pair_inv in Hset; destruct Hset as [<- <-]. change clear_work_packet with (enc_u8 timeWorkHours ++ write_work None).
+      rewrite (client_time_work cli _ _ rt_work_none). cbn [effect apply_order].
+      replace (norm_work w) with (@None workhours) by (unfold norm_work; rewrite Ee; reflexivity). reflexivity.
+    + destruct (work_verify w); cbn [negb] in Hset; [|discriminate]. apply ok_pair_inv in Hset; destruct Hset as [<- <-].
       rewrite (client_time_work cli w) by (apply rt_workhours; assumption). reflexivity.
   - (* SetWorkHours nil *)
-    injection Hset as <- <-. change clear_work_packet with (enc_u8 timeWorkHours ++ write_work None).
+    apply ok_pair_inv in Hset; destruct Hset as [<- <-]. change clear_work_packet with (enc_u8 timeWorkHours ++ write_work None).
     rewrite (client_time_work cli _ _ rt_work_none). reflexivity.
   - (* task.Duration *)
-    injection Hset as <- <-. cbv zeta.
+    apply ok_pair_inv in Hset; destruct Hset as [<- <-]. cbv zeta.
     destruct (j =? -1) eqn:E1.
-    + change (Z.land (-1) 255) with 255. rewrite be16_small by lia.
+    + assert (j = -1) by lia. subst j. change (Z.land (-1) 255) with 255. rewrite be16_small by lia.
       rewrite client_time_duration by (try apply u64_range; lia). rewrite i64_u64 by lia.
       cbn [effect apply_order]. change (i8 255) with (-1). reflexivity.
     + assert (Hoj : (if j <? 0 then 0 else if 100 <? j then 100 else j) = order_jitter j) by reflexivity.
@@ -552,12 +555,12 @@ Proof.
       change 255 with (2 ^ 8 - 1). rewrite land_ones_mod by lia. change (2 ^ 8) with 256.
       rewrite Z.mod_small by lia. rewrite be16_small by lia.
       rewrite client_time_duration by (try apply u64_range; lia). rewrite i64_u64 by lia.
-      cbn [effect apply_order]. rewrite clamp_in_domain by exact Hr. reflexivity.
+      cbn [effect apply_order]. rewrite E1. rewrite clamp_in_domain by exact Hr. reflexivity.
   - (* task.KillDate *)
-    injection Hset as <- <-.
+    apply ok_pair_inv in Hset; destruct Hset as [<- <-].
     rewrite client_time_kill by (unfold kill_wire; destruct (is_zero_time k); [lia | apply u64_range]). reflexivity.
   - (* task.WorkHours *)
-    injection Hset as <- <-. unfold wf_workhours in Ho. bools.
+    apply ok_pair_inv in Hset; destruct Hset as [<- <-]. unfold wf_workhours in Ho. bools.
     rewrite be16_tag2 by lia.
     change ([2; w_days w] ++ enc_u8 (w_sh w) ++ enc_u8 (w_sm w) ++ enc_u8 (w_eh w) ++ enc_u8 (w_em w))
       with (enc_u8 timeWorkHours ++ [w_days w] ++ enc_u8 (w_sh w) ++ enc_u8 (w_sm w) ++ enc_u8 (w_eh w) ++ enc_u8 (w_em w)).
@@ -585,21 +588,35 @@ Proof.
   destruct (x mod 256 <? 128) eqn:F; lia.
 Qed.
 
+Lemma wf_settings_intro r j sl k w :
+  0 <= j < 256 -> -9223372036854775808 <= sl < 9223372036854775808 -> wf_time k = true -> wf_work w = true ->
+  wf_settings (set_settings r j sl k w) = true.
+Proof.
+  intros Hj Hs Hk Hw. unfold wf_settings, set_settings. cbn [s_jitter s_sleep s_kill s_work].
+  rewrite Hk, Hw. unfold is_u8, is_i64. lia.
+Qed.
+
 Lemma wf_effect srv cli o :
   wf_settings srv = true -> wf_settings cli = true -> wf_order o = true -> wf_settings (effect srv cli o) = true.
 Proof.
-  unfold wf_settings. intros Hs Hc Ho. bools.
+  unfold wf_settings at 1 2. intros Hs Hc Ho. bools.
   assert (Hnk : forall k, wf_time (norm_kill k) = true) by (intros k; apply wf_kill_of_wire).
   assert (Hnw : forall w, wf_workhours w = true -> wf_work (norm_work w) = true).
   { intros w Hw. unfold norm_work. destruct (work_empty w); [reflexivity | exact Hw]. }
   destruct o as [t j|k|[w|]|d j|k|w]; cbn [effect apply_order wf_order] in *; cbv zeta;
-    unfold set_duration, set_kill, set_work, set_settings; cbn [s_jitter s_sleep s_kill s_work]; bools;
-    repeat (apply andb_true_iff; split); try assumption; try (apply Hnk); try (apply Hnw; assumption); try reflexivity;
-    try (apply is_u8_iff; lia); try (apply is_i64_iff; lia).
-  - apply is_u8_iff. apply clamp_u8. lia.
-  - apply is_i64_iff. destruct (0 <? t); [destruct (0 <? t); lia|]. destruct (0 <? s_sleep srv); lia.
-  - apply is_u8_iff. destruct (j =? -1); [lia|]. pose proof (order_jitter_range j). lia.
-  - apply is_i64_iff. destruct (0 <? d); lia.
+    unfold set_duration, set_kill, set_work; bools; apply wf_settings_intro; try assumption; try lia;
+    try apply Hnk; try (apply Hnw; assumption); try reflexivity.
+  - apply clamp_u8. lia.
+  - destruct (0 <? t); [destruct (0 <? t); lia|]. destruct (0 <? s_sleep srv); lia.
+  - destruct (j =? -1); [lia|]. pose proof (order_jitter_range j). lia.
+  - destruct (0 <? d); lia.
+Qed.
+
+Lemma wf_sync s : wf_settings s = true -> wf infoSync s = true.
+Proof.
+  intros H. unfold wf. change (is_kind infoSync) with true. change (infoSync =? infoProxy) with false.
+  change (has_device infoSync) with false. change (infoSync =? infoMigrate) with false.
+  change (carries_proxy infoSync) with false. cbn [andb]. rewrite H. reflexivity.
 Qed.
 
 (* the whole exchange: setter, client handler, echo, handleInfoResult *)
@@ -613,7 +630,7 @@ Proof.
   destruct (server_set srv o) as [[srv1 p]| |] eqn:Eset; cbn [bind] in He; try discriminate.
   rewrite (client_handles_order srv cli o srv1 p Hs Ho Eset) in He. cbn [bind] in He.
   unfold server_absorb in He.
-  assert (Hw : wf infoSync (effect srv cli o) = true) by (apply (wf_effect srv cli o Hs Hc Ho)).
+  assert (Hw : wf infoSync (effect srv cli o) = true) by (apply wf_sync; apply (wf_effect srv cli o Hs Hc Ho)).
   pose proof (devinfo_roundtrip_flat infoSync (effect srv cli o) srv1 Hw []) as Hr. rewrite app_nil_r in Hr.
   rewrite Hr in He. cbn [bind fst] in He. injection He as <- <- <-.
   split; [reflexivity|]. exists srv1. split; reflexivity.
@@ -631,7 +648,7 @@ Proof.
     destruct (Hv w eq_refl) as [E|E]; rewrite E; [eauto|]. destruct (work_empty w); cbn [negb]; eauto. }
   destruct Hset as (srv1 & p & Eset). unfold exchange. rewrite Eset. cbn [bind].
   rewrite (client_handles_order srv cli o srv1 p Hs Ho Eset). cbn [bind]. unfold server_absorb.
-  assert (Hw : wf infoSync (effect srv cli o) = true) by (apply (wf_effect srv cli o Hs Hc Ho)).
+  assert (Hw : wf infoSync (effect srv cli o) = true) by (apply wf_sync; apply (wf_effect srv cli o Hs Hc Ho)).
   pose proof (devinfo_roundtrip_flat infoSync (effect srv cli o) srv1 Hw []) as Hr. rewrite app_nil_r in Hr.
   rewrite Hr. cbn [bind fst]. eauto.
 Qed.
@@ -702,20 +719,24 @@ Theorem ordered_values_applied_exactly srv cli o pkt cli1 srv2 :
 Proof.
   intros Hs Hc Ho He. destruct (server_view_after _ _ _ _ _ _ Hs Hc Ho He) as (A & B & C & D).
   destruct (exchange_spec _ _ _ _ _ _ Hs Hc Ho He) as (E & _).
-  rewrite A, B, C, D. clear A B C D He. subst cli1.
-  destruct o as [t j|k|w|d j|k|w]; cbn [ordered_exactly effect apply_order wf_order] in *; cbv zeta;
+  clear He.
+  destruct o as [t j|k|w|d j|k|w]; cbn [ordered_exactly];
+    [rewrite A, B | rewrite C | rewrite D | rewrite A, B | rewrite C | rewrite D]; clear A B C D; subst cli1;
+    cbn [effect apply_order wf_order] in *; cbv zeta;
     unfold set_duration, set_kill, set_work, set_settings; cbn [s_jitter s_sleep s_kill s_work].
   - split.
     + intros Hj. replace (j =? -1) with false by lia. unfold order_jitter.
       replace (j <? 0) with false by lia. replace (100 <? j) with false by lia. rewrite clamp_in_domain by lia. split; reflexivity.
     + intros Ht. replace (0 <? t) with true by lia. replace (0 <? t) with true by lia. split; reflexivity.
-  - intros Hk. rewrite !norm_kill_exact; try assumption; [split; reflexivity | apply wf_kill_of_wire | apply exact_kill_of_wire].
-  - intros Hw. destruct w as [w|]; [|split; reflexivity]. cbn [exact_work] in Hw. unfold norm_work.
-    destruct (work_empty w) eqn:Ee; [discriminate|]. cbn [norm_work_opt]. unfold norm_work. rewrite Ee. split; reflexivity.
+  - intros Hk. assert (E : norm_kill k = k) by (apply norm_kill_exact; assumption). rewrite !E. split; reflexivity.
+  - intros Hw. destruct w as [w|]; cbn [s_work norm_work_opt]; [|split; reflexivity]. cbn [exact_work] in Hw.
+    assert (E : norm_work w = Some w) by (unfold norm_work; destruct (work_empty w); [discriminate | reflexivity]).
+    rewrite E. cbn [norm_work_opt]. rewrite E. split; reflexivity.
   - split.
     + intros Hj. replace (j =? -1) with false by lia. unfold order_jitter.
       replace (j <? 0) with false by lia. replace (100 <? j) with false by lia. split; reflexivity.
     + intros Ht. replace (0 <? d) with true by lia. split; reflexivity.
-  - intros Hk. rewrite !norm_kill_exact; try assumption; [split; reflexivity | apply wf_kill_of_wire | apply exact_kill_of_wire].
-  - intros Hw. unfold norm_work. rewrite Hw. cbn [norm_work_opt]. unfold norm_work. rewrite Hw. split; reflexivity.
+  - intros Hk. assert (E : norm_kill k = k) by (apply norm_kill_exact; assumption). rewrite !E. split; reflexivity.
+  - intros Hw. assert (E : norm_work w = Some w) by (unfold norm_work; rewrite Hw; reflexivity).
+    rewrite E. cbn [norm_work_opt]. rewrite E. split; reflexivity.
 Qed.
